@@ -248,3 +248,80 @@ Definition rt_canonical_host (host0 : bytes) : option bytes :=
 (* `domain, _ := httppkg.CanonicalHost(req.Host)` *)
 Definition rt_canon_or_empty (host : bytes) : bytes :=
   match rt_canonical_host host with Some h => h | None => [] end.
+
+(* ---------- the wildcard walk as read from the source (translator unit c06route) ---------- *)
+(* how getVhost / getListener split the host: strings.Split(domain, "."), strings.SplitN(domain, ".", n),
+   or something the translator does not recognise *)
+Inductive rt_split_mode := RtSplitAll | RtSplitN (n : Z) | RtSplitOther.
+
+(* strings.SplitN(s, ".", n): n > 0: at most n elements, the last one is the unsplit remainder;
+   n = 0: nil; n < 0: all *)
+Definition rt_splitn (n : Z) (s : bytes) : list bytes :=
+  if n =? 0 then []
+  else if n <? 0 then rt_split s
+  else
+    let ls := rt_split s in
+    if Z.of_nat (length ls) <=? n then ls
+    else firstn (Z.to_nat (n - 1)) ls ++ [rt_join (skipn (Z.to_nat (n - 1)) ls)].
+
+Definition rt_split_by (m : rt_split_mode) (s : bytes) : list bytes :=
+  match m with
+  | RtSplitAll => rt_split s
+  | RtSplitN n => rt_splitn n s
+  | RtSplitOther => []
+  end.
+
+(* one walk site of the source: split call, the bound of `if len(domainSplit) < k { break }`, and the
+   statement shape of the function and of its findRouter closure as tokens *)
+Record rt_walk_src := mkWalkSrc {
+  ws_split : rt_split_mode;
+  ws_min : Z;
+  ws_shape : list string;
+  ws_find : list string
+}.
+
+Fixpoint rt_walk_g {P} (min : Z) (s : rstate P) (labels : list bytes) (path user : bytes) : option (route P) :=
+  match labels with
+  | [] => None
+  | _ :: rest =>
+      if (Z.of_nat (length labels) <? min) then None
+      else match rt_find_router s (rt_join (rt_star :: rest)) path user with
+           | Some r => Some r
+           | None => rt_walk_g min s rest path user
+           end
+  end.
+
+(* getVhost / getListener with the split call and loop bound of a given source site *)
+Definition rt_get_vhost_g {P} (w : rt_walk_src) (s : rstate P) (domain path user : bytes) : option (route P) :=
+  match rt_find_router s domain path user with
+  | Some r => Some r
+  | None =>
+      match rt_walk_g (ws_min w) s (rt_split_by (ws_split w) domain) path user with
+      | Some r => Some r
+      | None => rt_find_router s rt_star path user
+      end
+  end.
+
+(* the shape Model/Router.v mirrors (rt_get_vhost, rt_find_router, rt_walk) *)
+Definition rt_walk_shape_std : list string :=
+  ["FindRouter"; "FindExact"; "RetIfFound"; "Split"; "For"; "BreakIfLenLt"; "SetFirstStar"; "JoinDot"; "FindJoined";
+   "RetIfFound"; "DropFirst"; "End"; "FindStar"; "RetIfFound"; "RetNone"]%string.
+Definition rt_find_shape_std : list string :=
+  ["GetUser"; "RetIfFound"; "GetAny"; "RetIfFound"; "RetNone"]%string.
+
+Fixpoint rt_strs_eqb (a b : list string) : bool :=
+  match a, b with
+  | [], [] => true
+  | x :: a', y :: b' => String.eqb x y && rt_strs_eqb a' b'
+  | _, _ => false
+  end.
+
+Definition rt_walk_src_std (w : rt_walk_src) : bool :=
+  match ws_split w with RtSplitAll => true | _ => false end &&
+  (ws_min w =? 3) && rt_strs_eqb (ws_shape w) rt_walk_shape_std && rt_strs_eqb (ws_find w) rt_find_shape_std.
+
+Fixpoint rt_site_lookup {A} (name : string) (l : list (string * A)) : option A :=
+  match l with
+  | [] => None
+  | (n, a) :: r => if String.eqb n name then Some a else rt_site_lookup name r
+  end.
